@@ -73,6 +73,7 @@ func profileOf(name string) profileCfg {
 		c.minObs, c.maxObs = 3, 8
 		m["obs"], m["otoggle"], m["emit"], m["set"], m["relbatch"], m["setrel"], m["xchgb"], m["setrelb"] = 4, 4, 3, 2, 3, 2, 3, 2
 		m["obschurn"] = 4
+		m["obsmove"] = 3
 	case "relations":
 		m["setrel"], m["setrelb"], m["del"], m["delb"], m["shrink"], m["staleq"] = 3, 3, 2, 2, 2, 4
 	case "batch":
@@ -1699,6 +1700,32 @@ func (g *Gen) opObsChurn() bool {
 	return true
 }
 
+// opObsMove: the world is replaced by a new one in which the component types are registered in rotated
+// order (other IDs); the observer objects survive, un-registered, and some are registered in the new
+// world, followed by operations that trigger events (an observer object may move between worlds)
+func (g *Gen) opObsMove() bool {
+	if g.cfg.maxObs == 0 || len(g.obsLabels) == 0 || !g.chance(0.3) {
+		return false
+	}
+	g.drainQueries()
+	caps := []int{1, 2, 64, 1024}
+	g.emit(fmt.Sprintf("rebuild %d %d rot", caps[g.pick(len(caps))], []int{1, 2, 128}[g.pick(3)]))
+	g.filterLabels, g.typedFilters, g.openQueries = nil, nil, nil
+	g.ents = nil
+	n := 1 + g.pick(3)
+	for i := 0; i < n; i++ {
+		g.emit(fmt.Sprintf("oreg o%d", g.obsLabels[g.pick(len(g.obsLabels))]))
+	}
+	for i := 0; i < 3; i++ {
+		g.opNew()
+	}
+	g.opAdd()
+	g.opSet()
+	g.opRem()
+	g.opDel()
+	return true
+}
+
 func (g *Gen) opEmit() bool {
 	if len(g.customEvents) == 0 {
 		return false
@@ -1975,7 +2002,7 @@ func (g *Gen) Run(nseq, nops int) {
 				g.newObserver()
 				return true
 			}},
-			{"otoggle", 2, g.opObsToggle}, {"emit", 3, g.opEmit}, {"obschurn", 1, g.opObsChurn},
+			{"otoggle", 2, g.opObsToggle}, {"emit", 3, g.opEmit}, {"obschurn", 1, g.opObsChurn}, {"obsmove", 1, g.opObsMove},
 			{"stats", 2, func() bool { g.emit("stats"); return true }},
 			{"shrink", 2, func() bool {
 				if g.chance(0.5) {
